@@ -79,6 +79,13 @@ Expected(ev, pre, post) ==
     [] ev.a = "Snapshot" -> TakeSnapshot(pre)
     [] ev.a = "Compact" -> Compact(pre, ev.val)
     [] ev.a = "SetRto" -> [pre EXCEPT !.rto = post.rto]    \* the environment re-draws the randomized timeout
+    \* xsim (exhaustive exploration of the real code): MCRaft!Timeout - time passes until the timer is
+    \* about to fire, then one tick - and MCRaft!LeaseExpire (the environment moves the clock)
+    [] ev.a = "Timeout" -> LET p == Notify(pre)
+                               armed == IF p.role = "L" THEN [p EXCEPT !.etick = ET - 1, !.htick = HT - 1]
+                                        ELSE [p EXCEPT !.etick = Max2(p.etick, p.rto - 1)]
+                           IN Tick(armed, post.rto)
+    [] ev.a = "Env" -> [pre EXCEPT !.etick = post.etick, !.rto = post.rto]
 
 Enabled(ev, pre) ==
   CASE ev.a = "Deliver" -> MsgOf(ev.m) \in net /\ pre.up
